@@ -1227,8 +1227,16 @@ def oset_history(rng, ty, nops=12):
             ops.append(f"iter {r}")
         elif k < 0.8:
             ops.append(f"len {r}")
-        elif k < 0.9:
+        elif k < 0.86:
             ops.append(f"cmp {r} {rng.choice(live)}")
-        else:
+        elif k < 0.9:
             ops.append(f"eq {r} {rng.choice(live)}")
+        elif k < 0.94:
+            nr = len(live)
+            live.append(nr)
+            ops.append(f"clone {nr} {r}" if rng.random() < 0.8 else f"default {nr}")
+        elif k < 0.97:
+            ops.append(f"empty {r}")
+        else:
+            ops.append(f"nth {r} {rng.choice([0, 0, 1, 2, 3, 5, 9])}")
     return ty + " " + ";".join(ops)
